@@ -70,6 +70,15 @@ def yaml_reference(text: str, loader=None):
         "StreamStartEvent", "DocumentStartEvent", "MappingStartEvent"
     ] or names[-3:] != ["MappingEndEvent", "DocumentEndEvent", "StreamEndEvent"]:
         return "outside", "shape", None
+    if "?" in text:
+        # the '? key' (explicit / complex key) form is not among the subset's key forms; the event stream does not show
+        # it, the token stream does: an explicit KeyToken covers the indicator, an implicit one has no width
+        try:
+            if any(type(t).__name__ == "KeyToken" and t.end_mark.index > t.start_mark.index
+                   for t in yaml.scan(text, Loader=loader or yaml.SafeLoader)):
+                return "outside", "explicit-key", None
+        except yaml.YAMLError:
+            return "outside", "explicit-key", None
     ds, ms, de = events[1], events[2], events[-2]
     if ds.explicit or de.explicit or ds.tags or ds.version:
         return "outside", "explicit-document", None
